@@ -15,7 +15,11 @@ Un(p) == { "(" \o p \o ").a", "(" \o p \o ")[0]", "(" \o p \o ")[]", "(" \o p \o
            "(" \o p \o " | select(. != null))", "(" \o p \o " | select(type == \"number\"))", "(" \o p \o " | select(.a?))",
            "(" \o p \o " | getpath([\"a\"]))", "(" \o p \o " | ..)", "(. as $y | " \o p \o ")", "(" \o p \o " | . as $y | $y)",
            "(" \o p \o " | null)", "(" \o p \o " | 1)", "(" \o p \o " | [.] | .[0])", "(" \o p \o " | {a: .} | .a)", "(" \o p \o " | tostring)",
-           "if . then " \o p \o " else empty end", "(try " \o p \o " catch .)", "(" \o p \o " | if type == \"array\" then .[0] else . end)" }
+           "if . then " \o p \o " else empty end", "(try " \o p \o " catch .)", "(" \o p \o " | if type == \"array\" then .[0] else . end)",
+           \* bindings composed with paths: destructuring patterns (with the identity and with other sources) must not contribute to the path
+           "(. as [$y] | " \o p \o ")", "(. as {a: $y} | " \o p \o ")", "(" \o p \o " | . as [$y] | .[1])", "(" \o p \o " | . as {a: [$y]} | .b)", "(" \o p \o " | . as [$y] ?// $y | .a)",
+           "(" \o p \o " | . as [$y, $z] | select($y != null))", "(.a as [$y] | " \o p \o ")", "(" \o p \o " as {a: $y} | .b)", "(" \o p \o " | . as $y | . as [$z] | .[0])",
+           "(" \o p \o " | . as {$a} | .a)", "(" \o p \o " | . as {\"a\": $y} | .a)", "(" \o p \o " | . as {(\"a\", \"b\"): $y} | .b)", "reduce . as [$y] (.; " \o p \o ")" }
 Bin(p, q) == { p \o " | " \o q, "(" \o p \o ", " \o q \o ")", "(" \o p \o " // " \o q \o ")", "if " \o p \o " then " \o q \o " else . end",
                "(" \o p \o " as $y | " \o q \o ")", "(" \o p \o ")[" \o q \o "]?" }
 Depth1 == Atoms \cup UNION {Un(p) : p \in Atoms} \cup UNION {Bin(p, q) : p \in Atoms, q \in Atoms}
